@@ -50,7 +50,8 @@ func (v valueSpec) render() string {
 	case "dict":
 		return fmt.Sprintf("{\"k\": %d, 7: \"v%d\"}", n, n)
 	case "set":
-		return fmt.Sprintf("set([1, %d, \"z\"])", 1000+n)
+		// (strings of 12 bytes and more are hashed with a seed the Go runtime draws per process)
+		return fmt.Sprintf("set([1, %d, \"z\", \"a string of some length %d\", \"another string, longer than twelve bytes\", \"third-long-string-%d\"])", 1000+n, n, n)
 	case "nested":
 		return fmt.Sprintf("{\"a\": [%d, (1, 2), {\"b\": [%d]}], \"c\": (3, [4, %d])}", n, n+1, n+2)
 	case "shared":
